@@ -66,14 +66,23 @@ def materialise(case, seed, which):
         rnd.shuffle(order)
     rr = [rows[i] for i in order]
     L = case["L"]
-    if which % 2 == 0:
+    mode = which % 7
+    if mode in (0, 1):
         level = [l / (L - 1) if L > 1 else 0.0 for l in range(L)]
-    else:  # monotone re-mapping to arbitrary finite floats
+    elif mode in (2, 3):  # monotone re-mapping to arbitrary finite floats
         vals = sorted(rnd.uniform(-3, 3) for _ in range(L))
         for i in range(1, L):
             if vals[i] <= vals[i - 1]:
                 vals[i] = vals[i - 1] + 0.1
         level = vals
+    elif mode == 4:       # distinct but nearly tied scores (only order and exact ties may matter)
+        base = rnd.uniform(0.1, 0.9)
+        level = [base + i * 2e-7 for i in range(L)]
+    elif mode == 6:       # integer-like scores centred at zero: thresholds (midpoints) can be exactly 0.0 or negative
+        level = [float(i) - (L - 1) / 2.0 for i in range(L)] if rnd.random() < 0.5 else [float(2 * i - (L - 1)) for i in range(L)]
+    else:                 # large magnitude, small absolute gaps
+        base = rnd.choice([24.51, -1.0e4, 3.0e6])
+        level = [base + i * abs(base) * 4e-6 for i in range(L)]
     g = [GLAB[r[0]] for r in rr]
     y = [r[1] for r in rr]
     s = [level[r[2]] for r in rr]
@@ -239,9 +248,9 @@ def explore(ck, want_c10=False, per_case=None):
         rnd = random.Random(hash((ck.seed, i)) & 0xFFFFFFFF)
         chosen = allc if per_case >= len(allc) else rnd.sample(allc, per_case)
         for j, conf in enumerate(chosen):
-            jobs.append((c, conf, ck.seed, (i + j) % 4, want_c10 and j % 8 == 0, None))
+            jobs.append((c, conf, ck.seed, (i + j) % 7, want_c10 and j % 8 == 0, None))
         # grid_size 1000 (replay only): must equalise, and be at least as good as every emitted grid dividing 1000
         conf = rnd.choice(allc)
-        jobs.append((c, conf, ck.seed, (i % 4), False, 1000))
+        jobs.append((c, conf, ck.seed, (i % 7), False, 1000))
     recs = pmap(_job, jobs)
     return cases, jobs, recs
